@@ -326,7 +326,7 @@ def _blind_chunk(args):
                     break
                 continue
             o = rand_op(rng, cur)
-            if o["op"] in ("csv", "optimize_width", "clear", "transpose"):
+            if o["op"] in ("csv", "optimize_width", "clear", "transpose", "transpose_area"):
                 continue
             hist.append({"op": o})
             try:
